@@ -78,7 +78,7 @@ def jobs_for(cls, nr, nt, nsc, dirbc, assembly="sequential", only_lines=None):
 def shapes(tier):
     fam = [(7, 4, 3, (0, 1)), (7, 4, 4, (0,))]
     if tier != "quick":
-        fam += [(7, 4, 4, (1,)), (7, 12, 4, (0,)), (7, 8, 4, (0, 1)), (9, 8, 5, (0, 1)), (9, 4, 3, (0, 1)), (7, 12, 3, (1,)), (9, 4, 6, (0,))]
+        fam += [(7, 4, 4, (1,)), (7, 12, 4, (0,)), (7, 8, 4, (0,)), (9, 4, 3, (1,))]
     return fam
 
 
